@@ -8,7 +8,8 @@ META = {
                   'enspara.cluster.util.assign_to_nearest_center', 'enspara.cluster.util.find_cluster_centers'],
     'bounds': {'quick': 'N<=5 frames, n_clusters<=3 (and N+1), symbolic radius cut-off, 0..2 symbolic initial centers taken from the data and '
                         '1..2 initial centers that are NOT frames of the data (N<=4); '
-                        '2-approximation over all k-subsets for N<=5',
+                        '2-approximation over all k-subsets for N<=5; interpreted data (points on a line, |x-y| computed on int64 / float64 values in [-64, 64], '
+                        'float64 off-data initial centers and radius multiples of 1/8): N<=4, k<=4',
                'thorough': 'N<=7 frames, n_clusters<=4, 0..3 initial centers; 2-approximation N<=6'},
     'stubs': ['metric = uninterpreted function D (zero diagonal, symmetric, positive; triangle inequality for the '
               'shortcut / approximation jobs)', 'logging disabled'],
